@@ -105,3 +105,20 @@ func ClassOf(s string) []string {
 	}
 	return out
 }
+
+// BoundaryString draws a long string whose length sits at or next to a typical buffer size (1 KiB, 4 KiB,
+// 8 KiB), made of a filler with a few tokens of the alphabet at the start, at the end and right at the boundary.
+func BoundaryString(tokens []string) *rapid.Generator[string] {
+	return rapid.Custom(func(t *rapid.T) string {
+		size := rapid.SampledFrom([]int{1024, 1024, 4096, 4096, 8192}).Draw(t, "size")
+		delta := rapid.IntRange(-3, 3).Draw(t, "delta")
+		head := StringOf(tokens, 0, 2).Draw(t, "head")
+		tail := StringOf(tokens, 0, 3).Draw(t, "tail")
+		filler := rapid.SampledFrom([]string{"a", "x", " ", "\u00e9"}).Draw(t, "filler")
+		n := size + delta - len(head) - len(tail)
+		if n < 0 {
+			n = 0
+		}
+		return head + strings.Repeat(filler, n/len(filler)) + tail
+	})
+}
